@@ -83,9 +83,16 @@ def run_e2e(seed, tape, opts):
             return None
         return (ma._connection, mb._connection)
     sim.run(8000, until=lambda: conns() is not None, max_time=300)
-    if conns() is None:
-        raise cc.HarnessError("e2e: first dilation connection not made")
     nloss = 5 + tape.choose(5, "nloss")
+    if conns() is None:
+        viol.append({"key": "C11.no_convergence", "clause": "the two sides "
+                     "agree on roles and converge on a shared connection",
+                     "detail": "end to end: both sides dilate and can reach "
+                     "each other, yet no shared connection after 8000 events "
+                     "/ 300 s; manager states %s / %s" %
+                     (_st(mgr(a)) if mgr(a) else None,
+                      _st(mgr(b)) if mgr(b) else None)})
+        nloss = 0
     done_losses = 0
     for i in range(nloss):
         old = conns()
